@@ -17,7 +17,205 @@ pub open spec fn valid_layout(l: Layout) -> bool {
 pub open spec fn layout_align1(l: Layout) -> int { if l.align == 0 { 1 } else { l.align as int } }
 pub const BIG: usize = 0x1000_0000_0000_0000;
 
+// ---- repr(C) placement (Rust reference, "The C representation"): a field of
+// alignment `fa` that follows an optional padding field `p` after `end` bytes
+pub open spec fn end_after(end: int, p: Option<Tok>) -> int {
+    match p { Some(t) => align_up(end, ty_align(field_ty(t))) + ty_size(field_ty(t)), None => end }
+}
+pub open spec fn place_after(end: int, p: Option<Tok>, fa: int) -> int {
+    align_up(end_after(end, p), fa)
+}
+// F4: a padding blob of alignment > 4 (`__BindgenOpaqueArray8<[u8; p]>`) is
+// only exact when both its start and its length are multiples of 8
+pub open spec fn f4_region(l: int, p: int, pa: int) -> bool {
+    pa > 4 && (l % pa != 0 || p % pa != 0)
+}
+
+// padding alignment chosen by saw_field_with_layout (after the F4 repair):
+// min(fa, 8), or 1 when forced or when an 8-aligned wrapper would be inexact
+pub open spec fn pad_align_for(l: int, p: int, fa: int, force: bool) -> int {
+    let pa0 = if force { 1 } else if fa <= 8 { fa } else { 8 };
+    if pa0 > 4 && (l % pa0 != 0 || p % pa0 != 0) { 1 } else { pa0 }
+}
+pub open spec fn blob_size_i(p: int, pa: int) -> int {
+    if pa <= 4 { (p / pa) * pa } else { align_up(p, pa) }
+}
+
+pub proof fn lemma_place_1(l: int, o: int, force: bool)
+    requires 0 <= l <= o, o % 1 == 0,
+    ensures ({
+        let p = o - l;
+        let emitted = (force || p >= 1) && p != 0;
+        let pa = pad_align_for(l, p, 1, force);
+        &&& (pa == 1 || pa == 1)
+        &&& (if emitted {
+            if pa == 1 { align_up(align_up(l, 1) + (p / 1) * 1, 1) == o }
+            else if 1 <= 4 { align_up(align_up(l, 1) + (p / 1) * 1, 1) == o }
+            else { align_up(align_up(l, 1) + align_up(p, 1), 1) == o }
+        } else { align_up(l, 1) == o })
+    }),
+{
+}
+
+pub proof fn lemma_place_2(l: int, o: int, force: bool)
+    requires 0 <= l <= o, o % 2 == 0,
+    ensures ({
+        let p = o - l;
+        let emitted = (force || p >= 2) && p != 0;
+        let pa = pad_align_for(l, p, 2, force);
+        &&& (pa == 1 || pa == 2)
+        &&& (if emitted {
+            if pa == 1 { align_up(align_up(l, 1) + (p / 1) * 1, 2) == o }
+            else if 2 <= 4 { align_up(align_up(l, 2) + (p / 2) * 2, 2) == o }
+            else { align_up(align_up(l, 2) + align_up(p, 2), 2) == o }
+        } else { align_up(l, 2) == o })
+    }),
+{
+}
+
+pub proof fn lemma_place_4(l: int, o: int, force: bool)
+    requires 0 <= l <= o, o % 4 == 0,
+    ensures ({
+        let p = o - l;
+        let emitted = (force || p >= 4) && p != 0;
+        let pa = pad_align_for(l, p, 4, force);
+        &&& (pa == 1 || pa == 4)
+        &&& (if emitted {
+            if pa == 1 { align_up(align_up(l, 1) + (p / 1) * 1, 4) == o }
+            else if 4 <= 4 { align_up(align_up(l, 4) + (p / 4) * 4, 4) == o }
+            else { align_up(align_up(l, 4) + align_up(p, 4), 4) == o }
+        } else { align_up(l, 4) == o })
+    }),
+{
+}
+
+pub proof fn lemma_place_8(l: int, o: int, force: bool)
+    requires 0 <= l <= o, o % 8 == 0,
+    ensures ({
+        let p = o - l;
+        let emitted = (force || p >= 8) && p != 0;
+        let pa = pad_align_for(l, p, 8, force);
+        &&& (pa == 1 || pa == 8)
+        &&& (if emitted {
+            if pa == 1 { align_up(align_up(l, 1) + (p / 1) * 1, 8) == o }
+            else if 8 <= 4 { align_up(align_up(l, 8) + (p / 8) * 8, 8) == o }
+            else { align_up(align_up(l, 8) + align_up(p, 8), 8) == o }
+        } else { align_up(l, 8) == o })
+    }),
+{
+}
+
+// fa > 8: the padding (always emitted when non-empty) ends exactly at o
+pub proof fn lemma_place_big(l: int, o: int, force: bool, fa: int)
+    requires 0 <= l <= o, fa > 8,
+    ensures ({
+        let p = o - l;
+        let pa = pad_align_for(l, p, fa, force);
+        &&& (pa == 1 || pa == 8)
+        &&& (pa == 1 ==> align_up(l, 1) + (p / 1) * 1 == o)
+        &&& (pa == 8 ==> align_up(l, 8) + align_up(p, 8) == o)
+    }),
+{
+}
+
+pub proof fn lemma_place(l: int, o: int, fa: int, force: bool)
+    requires 0 <= l <= o, fa >= 1, o % fa == 0, fa == 1 || fa == 2 || fa == 4 || fa >= 8,
+    ensures ({
+        let p = o - l;
+        let pa = pad_align_for(l, p, fa, force);
+        let emitted = (force || p >= fa || fa > 8) && p != 0;
+        if emitted { align_up(align_up(l, pa) + blob_size_i(p, pa), fa) == o } else { align_up(l, fa) == o }
+    }),
+{
+    if fa == 1 { lemma_place_1(l, o, force); }
+    else if fa == 2 { lemma_place_2(l, o, force); }
+    else if fa == 4 { lemma_place_4(l, o, force); }
+    else if fa == 8 { lemma_place_8(l, o, force); }
+    else { lemma_place_big(l, o, force, fa); }
+}
+
+pub proof fn lemma_pad_1(l: int, size: int)
+    requires 0 <= l <= size, size % 1 == 0, !(size - l >= 1 && f4_region(l, size - l, 1)),
+    ensures ({
+        let p = size - l;
+        if p >= 1 && p != 0 {
+            if 1 <= 4 { align_up(align_up(l, 1) + (p / 1) * 1, 1) == size }
+            else { align_up(align_up(l, 1) + align_up(p, 1), 1) == size }
+        } else { align_up(l, 1) == size }
+    }),
+{
+}
+
+pub proof fn lemma_pad_2(l: int, size: int)
+    requires 0 <= l <= size, size % 2 == 0, !(size - l >= 2 && f4_region(l, size - l, 2)),
+    ensures ({
+        let p = size - l;
+        if p >= 2 && p != 0 {
+            if 2 <= 4 { align_up(align_up(l, 2) + (p / 2) * 2, 2) == size }
+            else { align_up(align_up(l, 2) + align_up(p, 2), 2) == size }
+        } else { align_up(l, 2) == size }
+    }),
+{
+}
+
+pub proof fn lemma_pad_4(l: int, size: int)
+    requires 0 <= l <= size, size % 4 == 0, !(size - l >= 4 && f4_region(l, size - l, 4)),
+    ensures ({
+        let p = size - l;
+        if p >= 4 && p != 0 {
+            if 4 <= 4 { align_up(align_up(l, 4) + (p / 4) * 4, 4) == size }
+            else { align_up(align_up(l, 4) + align_up(p, 4), 4) == size }
+        } else { align_up(l, 4) == size }
+    }),
+{
+}
+
+pub proof fn lemma_pad_8(l: int, size: int)
+    requires 0 <= l <= size, size % 8 == 0, !(size - l >= 8 && f4_region(l, size - l, 8)),
+    ensures ({
+        let p = size - l;
+        if p >= 8 && p != 0 {
+            if 8 <= 4 { align_up(align_up(l, 8) + (p / 8) * 8, 8) == size }
+            else { align_up(align_up(l, 8) + align_up(p, 8), 8) == size }
+        } else { align_up(l, 8) == size }
+    }),
+{
+}
+
+pub proof fn lemma_pad(l: int, size: int, sa: int)
+    requires 0 <= l <= size, sa == 1 || sa == 2 || sa == 4 || sa == 8, size % sa == 0,
+             !(size - l >= sa && f4_region(l, size - l, sa)),
+    ensures ({
+        let p = size - l;
+        let bs = if sa <= 4 { (p / sa) * sa } else { align_up(p, sa) };
+        if p >= sa && p != 0 { align_up(align_up(l, sa) + bs, sa) == size } else { align_up(l, sa) == size }
+    }),
+{
+    if sa == 1 { lemma_pad_1(l, size); } else if sa == 2 { lemma_pad_2(l, size); } else if sa == 4 { lemma_pad_4(l, size); } else { lemma_pad_8(l, size); }
+}
+
 impl<'a> StructLayoutTracker<'a> {
+    // region of the placement theorem (property C02: "every named data member
+    // is at the same byte offset"): plain struct, clang gave the offset, the
+    // field's alignment is one Rust can express without repr(align), and the
+    // Rust struct built so far ends where the tracker thinks it does
+    pub open spec fn place_region(&self, fl: Layout, fo: Option<usize>) -> bool {
+        &&& !self.is_packed && !self.comp.spec_is_union()
+        &&& fo.is_some() && fo.unwrap() % 8 == 0 && fo.unwrap() / 8 >= self.latest_offset
+        &&& fl.align >= 1 && (fo.unwrap() / 8) as int % fl.align as int == 0
+        &&& (self.latest_field_layout.is_some() ==> self.latest_offset as int % layout_align1(self.latest_field_layout.unwrap()) == 0)
+    }
+    // region of the size theorem for pad_struct (property C02: "exactly the size
+    // ... the C compiler gives"): plain or packed(1) struct whose Rust alignment
+    // is the C alignment `sa`, fields so far end at latest_offset
+    pub open spec fn pad_region(&self, l: Layout) -> bool {
+        &&& l.size >= self.latest_offset && l.align >= 1 && l.size as int % l.align as int == 0
+        &&& !self.last_field_was_bitfield && l.align <= 8
+        &&& (self.is_packed ==> l.align == 1)
+    }
+    pub open spec fn pad_f4(&self, l: Layout) -> bool {
+        !self.is_packed && l.size - self.latest_offset >= l.align && f4_region(self.latest_offset as int, l.size - self.latest_offset, l.align as int)
+    }
     // representation invariant of the tracker
     pub open spec fn inv(&self) -> bool {
         &&& self.max_field_align < BIG
@@ -232,8 +430,10 @@ pub proof fn lemma_blob(l: Layout)
              "final(self).latest_field_layout == Some(field_layout) && !final(self).last_field_was_bitfield",
              "final(self).max_field_align >= old(self).max_field_align && final(self).max_field_align >= field_layout.align",
              "(old(self).is_packed || old(self).comp.spec_is_union()) ==> r.is_none()",
+             # PLACEMENT THEOREM (C02) on the whole region (F4 repaired by /repo commit 84ad6da6)
+             "old(self).place_region(field_layout, field_offset) ==> (place_after(old(self).latest_offset as int, r, field_layout.align as int) == field_offset.unwrap() / 8 && final(self).latest_offset == field_offset.unwrap() / 8 + field_layout.size)",
          ],
-         "proof_start": "reveal_with_fuel(is_pow2, 5);"},
+         "proof_start": "reveal_with_fuel(is_pow2, 5); if self.place_region(field_layout, field_offset) { lemma_place(self.latest_offset as int, field_offset.unwrap() as int / 8, field_layout.align as int, self.ctx.spec_options().force_explicit_padding); if self.latest_field_layout.is_some() { lemma_align_up(self.latest_offset as int, layout_align1(self.latest_field_layout.unwrap())); } }"},
         {"kind": "fn", "file": SL, "name": "add_tail_padding", **TR, "ret": "r",
          "subst": [("Option<proc_macro2::TokenStream>", "Option<Tok>", 1, "R4")],
          "requires": ["old(self).inv()", "old(self).small()", "valid_layout(comp_layout)"],
@@ -249,8 +449,10 @@ pub proof fn lemma_blob(l: Layout)
              "final(self).inv() && final(self).same_config(old(self))",
              "layout.size < old(self).latest_offset ==> r.is_none()",
              "final(self).latest_offset == old(self).latest_offset",
+             # SIZE THEOREM (C02), region minus F4: fields + returned padding, rounded to the struct alignment, give the C size
+             "(old(self).pad_region(layout) && !old(self).pad_f4(layout)) ==> align_up(end_after(old(self).latest_offset as int, r), layout.align as int) == layout.size",
          ],
-         "proof_start": "reveal_with_fuel(is_pow2, 2);"},
+         "proof_start": "reveal_with_fuel(is_pow2, 4); if self.pad_region(layout) && !self.pad_f4(layout) { lemma_pad(self.latest_offset as int, layout.size as int, layout.align as int); }"},
         {"kind": "fn", "file": SL, "name": "requires_explicit_align", **TR, "ret": "r",
          "ensures": [
              # property: repr(align) present whenever the fields alone would under-align
